@@ -9,12 +9,15 @@ import (
 	"context"
 	"encoding/json"
 	"fmt"
+	"go/parser"
+	"go/token"
 	"os"
 	"os/exec"
 	"path"
 	"path/filepath"
 	"regexp"
 	"sort"
+	"strconv"
 	"strings"
 	"sync"
 	"sync/atomic"
@@ -99,9 +102,9 @@ type Outcome struct {
 	Invalid   string `json:"invalid,omitempty"` // harness-side: not a valid proto file / protoc-gen-go failed
 	TimedOut  bool   `json:"timed_out,omitempty"`
 	Crashed   bool   `json:"crashed,omitempty"`
-	Garbled   bool   `json:"garbled,omitempty"`         // exit 0 but no response on stdout
-	Silent    bool   `json:"silent_failure,omitempty"`  // failed without any message
-	Both      bool   `json:"diag_and_files,omitempty"`  // diagnostic and files
+	Garbled   bool   `json:"garbled,omitempty"`          // exit 0 but no response on stdout
+	Silent    bool   `json:"silent_failure,omitempty"`   // failed without any message
+	Both      bool   `json:"diag_and_files,omitempty"`   // diagnostic and files
 	NonDet    string `json:"nondeterministic,omitempty"` // description of the difference between runs
 	Accepted  bool   `json:"accepted"`
 	Diagnosed bool   `json:"diagnosed"`
@@ -304,7 +307,9 @@ func (s *Scratch) Go(timeout time.Duration, args ...string) (string, int, error)
 	cmd := exec.CommandContext(ctx, "go", args...)
 	cmd.Dir = s.Dir
 	env := os.Environ()
-	env = append(env, "GOFLAGS=-mod=mod", "GOPROXY=off", "GOSUMDB=off", "GOTOOLCHAIN=local", "GOWORK=off")
+	// no cgo: generated code needs none, and the directly linked drivers of
+	// C17 then link internally without a C toolchain
+	env = append(env, "GOFLAGS=-mod=mod", "GOPROXY=off", "GOSUMDB=off", "GOTOOLCHAIN=local", "GOWORK=off", "CGO_ENABLED=0")
 	cmd.Env = env
 	var out bytes.Buffer
 	cmd.Stdout, cmd.Stderr = &out, &out
@@ -369,34 +374,345 @@ func devStatic(tl Tools, pkg string) (map[string]string, error) {
 }
 
 // WritePackage writes the generated code of an accepted definition into the
-// scratch module.
-func (s *Scratch) WritePackage(o *Outcome) error {
+// scratch module and returns what it wrote (path below the module → content).
+func (s *Scratch) WritePackage(o *Outcome) (map[string]string, error) {
+	all := map[string]string{}
 	for rel, c := range o.GoFiles {
-		if err := s.Write(rel, c); err != nil {
-			return err
-		}
+		all[rel] = c
 	}
 	for name, c := range o.Files {
-		if err := s.Write(o.Pkg+"/"+name, c); err != nil {
-			return err
-		}
+		all[o.Pkg+"/"+name] = c
 	}
 	if strings.Contains(o.Def.Param, "dev=true") && len(o.Files) > 0 {
 		st, err := devStatic(s.tl, o.Pkg)
 		if err != nil {
-			return err
+			return nil, err
 		}
 		for name, c := range st {
-			if err := s.Write(o.Pkg+"/"+name, c); err != nil {
-				return err
+			all[o.Pkg+"/"+name] = c
+		}
+	}
+	for rel, c := range all {
+		if err := s.Write(rel, c); err != nil {
+			return nil, err
+		}
+	}
+	return all, nil
+}
+
+// PkgSpec names one package of the scratch module to compile.
+type PkgSpec struct {
+	Path  string   // import path, e.g. scratch/p3
+	Dir   string   // directory below the module root
+	Files []string // Go files (base names)
+	// Main marks a main package: it is linked into <module>/bin/<Dir> as well.
+	Main bool
+}
+
+// LinkFailed prefixes the error text of a main package that compiled but did not link.
+const LinkFailed = "link failed: "
+
+// DepFailed prefixes the error text of a package whose scratch-internal
+// dependency did not compile.
+const DepFailed = "dependency does not compile: "
+
+// Compile compiles the packages and returns the compiler's error text per
+// import path ("" or absent = compiled).
+//
+// Default mode "direct": every package is compiled by `go tool compile` with
+// an importcfg taken from `go list -export -deps` of the packages it imports
+// (the runtime of /repo, grpc, protobuf, std: built once and cached by the go
+// tool as usual). This is the compile step `go build` would run, but the
+// objects of the thousands of throw-away packages do not end up in GOCACHE
+// (measured: about 1.7 MB per generated package, 9 GB after 5 000 definitions).
+// VERIF_GEN_COMPILER=gobuild uses one `go build` for the whole batch instead
+// (errors attributed by the `# pkg` header lines).
+func (s *Scratch) Compile(pkgs []PkgSpec) (map[string]string, error) {
+	if os.Getenv("VERIF_GEN_COMPILER") == "gobuild" {
+		return s.compileGoBuild(pkgs)
+	}
+	return s.compileDirect(pkgs)
+}
+
+func (s *Scratch) compileGoBuild(pkgs []PkgSpec) (map[string]string, error) {
+	args := []string{"build"}
+	want := map[string]bool{}
+	for _, p := range pkgs {
+		if p.Main {
+			if err := os.MkdirAll(filepath.Join(s.Dir, "bin"), 0o755); err != nil {
+				return nil, err
+			}
+			args = []string{"build", "-o", "bin/"}
+		}
+	}
+	for _, p := range pkgs {
+		args = append(args, "./"+p.Dir)
+		want[p.Path] = true
+	}
+	out, code, err := s.Go(15*time.Minute, args...)
+	if err != nil {
+		return nil, fmt.Errorf("go build: %v\n%s", err, trim(out, 2000))
+	}
+	res := map[string]string{}
+	if code == 0 {
+		return res, nil
+	}
+	by, _ := SplitBuildOutput(out)
+	if len(by) == 0 {
+		return nil, fmt.Errorf("go build failed without attributing errors to a package:\n%s", trim(out, 2000))
+	}
+	for p, e := range by {
+		if !want[p] {
+			return nil, fmt.Errorf("go build reported errors for an unexpected package %s:\n%s", p, trim(out, 2000))
+		}
+		res[p] = e
+	}
+	// go build does not attempt dependents of a failed package
+	for _, p := range pkgs {
+		if _, ok := res[p.Path]; ok {
+			continue
+		}
+		for _, q := range pkgs {
+			if q.Path != p.Path && strings.HasPrefix(q.Path, p.Path) && res[q.Path] != "" && p.Path+"dep" == q.Path {
+				res[p.Path] = DepFailed + q.Path
 			}
 		}
 	}
-	return nil
+	return res, nil
+}
+
+var (
+	importCfgMu    sync.Mutex
+	importCfgCache = map[string]string{}
+)
+
+// importCfg returns importcfg lines for the external packages (and all their
+// dependencies).
+func (s *Scratch) importCfg(ext []string) (string, error) {
+	key := strings.Join(ext, " ")
+	importCfgMu.Lock()
+	defer importCfgMu.Unlock()
+	if c, ok := importCfgCache[key]; ok {
+		return c, nil
+	}
+	args := append([]string{"list", "-e", "-export", "-deps", "-f", "{{if .Export}}packagefile {{.ImportPath}}={{.Export}}{{end}}"}, ext...)
+	out, code, err := s.Go(15*time.Minute, args...)
+	if err != nil {
+		return "", fmt.Errorf("go list -export: %v\n%s", err, trim(out, 2000))
+	}
+	var b strings.Builder
+	n := 0
+	for _, l := range strings.Split(out, "\n") {
+		if strings.HasPrefix(l, "packagefile ") {
+			b.WriteString(l + "\n")
+			n++
+		}
+	}
+	if n == 0 {
+		return "", fmt.Errorf("go list -export produced no export data (exit %d):\n%s", code, trim(out, 2000))
+	}
+	// every requested package that exists must have export data, else the
+	// runtime itself does not build: harness/infrastructure trouble
+	for _, e := range []string{"github.com/relab/gorums"} {
+		if !strings.Contains(b.String(), "packagefile "+e+"=") {
+			for _, x := range ext {
+				if x == e {
+					return "", fmt.Errorf("go list -export: no export data for %s (does /repo build?):\n%s", e, trim(out, 2000))
+				}
+			}
+		}
+	}
+	importCfgCache[key] = b.String()
+	return b.String(), nil
+}
+
+func (s *Scratch) compileDirect(pkgs []PkgSpec) (map[string]string, error) {
+	fset := token.NewFileSet()
+	inBatch := map[string]bool{}
+	for _, p := range pkgs {
+		inBatch[p.Path] = true
+	}
+	internal := map[string][]string{}
+	extSet := map[string]bool{}
+	for _, p := range pkgs {
+		for _, f := range p.Files {
+			af, err := parser.ParseFile(fset, filepath.Join(s.Dir, p.Dir, f), nil, parser.ImportsOnly)
+			if err != nil || af == nil {
+				continue // the compiler will report the syntax error
+			}
+			for _, im := range af.Imports {
+				ip, err := strconv.Unquote(im.Path.Value)
+				if err != nil {
+					continue
+				}
+				if ip == ScratchModule || strings.HasPrefix(ip, ScratchModule+"/") {
+					internal[p.Path] = append(internal[p.Path], ip)
+				} else {
+					extSet[ip] = true
+				}
+			}
+		}
+	}
+	var ext []string
+	for e := range extSet {
+		if e != "C" && e != "unsafe" {
+			ext = append(ext, e)
+		}
+	}
+	sort.Strings(ext)
+	base := ""
+	if len(ext) > 0 {
+		var err error
+		if base, err = s.importCfg(ext); err != nil {
+			return nil, err
+		}
+	}
+	res := map[string]string{}
+	archive := map[string]string{}
+	done := map[string]bool{}
+	var mains []PkgSpec
+	var mu sync.Mutex
+	remaining := append([]PkgSpec(nil), pkgs...)
+	for len(remaining) > 0 {
+		var ready, later []PkgSpec
+		for _, p := range remaining {
+			ok := true
+			for _, d := range internal[p.Path] {
+				if inBatch[d] && !done[d] {
+					ok = false
+				}
+			}
+			if ok {
+				ready = append(ready, p)
+			} else {
+				later = append(later, p)
+			}
+		}
+		if len(ready) == 0 {
+			return nil, fmt.Errorf("import cycle among generated packages")
+		}
+		var wg sync.WaitGroup
+		sem := make(chan struct{}, 8)
+		var firstErr error
+		for _, p := range ready {
+			p := p
+			cfg := base
+			failedDep := ""
+			for _, d := range internal[p.Path] {
+				if a, ok := archive[d]; ok {
+					cfg += "packagefile " + d + "=" + a + "\n"
+				} else if inBatch[d] {
+					failedDep = d
+				}
+			}
+			if failedDep != "" {
+				res[p.Path] = DepFailed + failedDep
+				continue
+			}
+			wg.Add(1)
+			go func() {
+				defer wg.Done()
+				sem <- struct{}{}
+				defer func() { <-sem }()
+				tag := strings.ReplaceAll(strings.TrimPrefix(p.Path, ScratchModule+"/"), "/", "_")
+				cfgFile := filepath.Join(s.Dir, "importcfg."+tag)
+				out := filepath.Join(s.Dir, tag+".a")
+				if err := os.WriteFile(cfgFile, []byte(cfg), 0o644); err != nil {
+					mu.Lock()
+					firstErr = err
+					mu.Unlock()
+					return
+				}
+				pkgPath := p.Path
+				if p.Main {
+					pkgPath = "main"
+				}
+				args := []string{"tool", "compile", "-p", pkgPath, "-lang=go1.23", "-complete", "-c=2", "-importcfg", cfgFile, "-pack", "-o", out}
+				for _, f := range p.Files {
+					args = append(args, filepath.Join(p.Dir, f))
+				}
+				txt, code, err := s.Go(10*time.Minute, args...)
+				mu.Lock()
+				defer mu.Unlock()
+				switch {
+				case err != nil:
+					firstErr = fmt.Errorf("go tool compile %s: %v\n%s", p.Path, err, trim(txt, 1000))
+				case code != 0:
+					if strings.TrimSpace(txt) == "" {
+						txt = fmt.Sprintf("go tool compile exited with status %d", code)
+					}
+					res[p.Path] = txt
+				default:
+					archive[p.Path] = out
+				}
+				if p.Main && code == 0 && err == nil {
+					mains = append(mains, p)
+				}
+			}()
+		}
+		wg.Wait()
+		if firstErr != nil {
+			return nil, firstErr
+		}
+		for _, p := range ready {
+			done[p.Path] = true
+		}
+		remaining = later
+	}
+	if len(mains) > 0 {
+		// link: the importcfg names every package of the closure
+		if err := os.MkdirAll(filepath.Join(s.Dir, "bin"), 0o755); err != nil {
+			return nil, err
+		}
+		cfg := base
+		for p, a := range archive {
+			cfg += "packagefile " + p + "=" + a + "\n"
+		}
+		cfgFile := filepath.Join(s.Dir, "importcfg.link")
+		if err := os.WriteFile(cfgFile, []byte(cfg), 0o644); err != nil {
+			return nil, err
+		}
+		var wg sync.WaitGroup
+		sem := make(chan struct{}, 8)
+		var firstErr error
+		for _, p := range mains {
+			p := p
+			wg.Add(1)
+			go func() {
+				defer wg.Done()
+				sem <- struct{}{}
+				defer func() { <-sem }()
+				txt, code, err := s.Go(10*time.Minute, "tool", "link", "-importcfg", cfgFile, "-buildmode=exe", "-s", "-w", "-o", filepath.Join("bin", p.Dir), archive[p.Path])
+				mu.Lock()
+				defer mu.Unlock()
+				if err != nil {
+					firstErr = fmt.Errorf("go tool link %s: %v\n%s", p.Path, err, trim(txt, 1000))
+				} else if code != 0 {
+					res[p.Path] = LinkFailed + txt
+				}
+			}()
+		}
+		wg.Wait()
+		if firstErr != nil {
+			return nil, firstErr
+		}
+	}
+	return res, nil
+}
+
+func goFilesOf(m map[string]string, dir string) []string {
+	var fs []string
+	for rel := range m {
+		if path.Dir(rel) == dir && strings.HasSuffix(rel, ".go") && !strings.HasSuffix(rel, "_test.go") {
+			fs = append(fs, path.Base(rel))
+		}
+	}
+	sort.Strings(fs)
+	return fs
 }
 
 // EvalBatch runs the plugins on every definition (definition i becomes
-// package p<i>) and compiles all accepted output with one `go build`.
+// package p<i>) and compiles all accepted output of the batch together.
 // The returned error reports harness-side trouble (never a property violation).
 func EvalBatch(tl Tools, defs []Def, runs int) ([]Outcome, error) {
 	if err := tl.Check(); err != nil {
@@ -431,79 +747,69 @@ func EvalBatch(tl Tools, defs []Def, runs int) ([]Outcome, error) {
 		return nil, err
 	}
 	defer s.Close()
-	for _, i := range compile {
-		if err := s.WritePackage(&outs[i]); err != nil {
-			return nil, err
-		}
-	}
-	out, code, err := s.Go(15*time.Minute, "build", "./...")
-	if err != nil {
-		return nil, fmt.Errorf("go build: %v\n%s", err, trim(out, 2000))
-	}
-	for _, i := range compile {
-		outs[i].Compiled = true
-	}
-	if code == 0 {
-		return outs, nil
-	}
-	by, rest := SplitBuildOutput(out)
-	if len(by) == 0 {
-		return nil, fmt.Errorf("go build failed without attributing errors to a package:\n%s", trim(out, 2000))
-	}
-	_ = rest
-	// control: does protoc-gen-go's code compile on its own? If not, the
-	// definition is outside what the harness can judge (not the plugin's fault).
-	var failing []int
+	var pkgs []PkgSpec
 	for _, i := range compile {
 		o := &outs[i]
-		if e, ok := by[ScratchModule+"/"+o.Pkg+"dep"]; ok {
+		written, err := s.WritePackage(o)
+		if err != nil {
+			return nil, err
+		}
+		pkgs = append(pkgs, PkgSpec{Path: ScratchModule + "/" + o.Pkg, Dir: o.Pkg, Files: goFilesOf(written, o.Pkg)})
+		if o.Def.Dep != nil {
+			pkgs = append(pkgs, PkgSpec{Path: ScratchModule + "/" + o.Pkg + "dep", Dir: o.Pkg + "dep", Files: goFilesOf(written, o.Pkg+"dep")})
+		}
+	}
+	errs, err := s.Compile(pkgs)
+	if err != nil {
+		return nil, err
+	}
+	var failing []int
+	var ctl []PkgSpec
+	for _, i := range compile {
+		o := &outs[i]
+		o.Compiled = true
+		if e := errs[ScratchModule+"/"+o.Pkg+"dep"]; e != "" {
 			o.Invalid = "the imported package's message code does not compile: " + trim(e, 400)
 			continue
 		}
-		if e, ok := by[ScratchModule+"/"+o.Pkg]; ok {
-			o.CompileError = trim(e, 1500)
-			failing = append(failing, i)
+		e := errs[ScratchModule+"/"+o.Pkg]
+		if e == "" {
+			continue
 		}
-	}
-	known := 0
-	for p := range by {
-		for _, i := range compile {
-			if p == ScratchModule+"/"+outs[i].Pkg || p == ScratchModule+"/"+outs[i].Pkg+"dep" {
-				known++
+		if strings.HasPrefix(e, DepFailed) {
+			o.Invalid = e
+			continue
+		}
+		o.CompileError = trim(e, 1500)
+		failing = append(failing, i)
+		// control: does protoc-gen-go's code compile on its own? If not, the
+		// definition is outside what the harness can judge (not the plugin's fault).
+		spec := PkgSpec{Path: ScratchModule + "/ctl" + o.Pkg, Dir: "ctl" + o.Pkg}
+		for rel, c := range o.GoFiles {
+			if path.Dir(rel) == o.Pkg {
+				if err := s.Write("ctl"+o.Pkg+"/"+path.Base(rel), c); err != nil {
+					return nil, err
+				}
+				spec.Files = append(spec.Files, path.Base(rel))
 			}
 		}
-	}
-	if known != len(by) {
-		return nil, fmt.Errorf("go build reported errors for unexpected packages:\n%s", trim(out, 2000))
+		sort.Strings(spec.Files)
+		ctl = append(ctl, spec)
+		if o.Def.Dep != nil {
+			// the control imports the same dep package; compile it again in this round
+			ctl = append(ctl, PkgSpec{Path: ScratchModule + "/" + o.Pkg + "dep", Dir: o.Pkg + "dep", Files: goFilesOf(o.GoFiles, o.Pkg+"dep")})
+		}
 	}
 	if len(failing) > 0 {
-		var pkgs []string
+		errs2, err := s.Compile(ctl)
+		if err != nil {
+			return nil, err
+		}
 		for _, i := range failing {
 			o := &outs[i]
-			for rel, c := range o.GoFiles {
-				if path.Dir(rel) == o.Pkg {
-					if err := s.Write("ctl"+o.Pkg+"/"+path.Base(rel), c); err != nil {
-						return nil, err
-					}
-				}
-			}
-			pkgs = append(pkgs, "./ctl"+o.Pkg)
-		}
-		out2, code2, err := s.Go(15*time.Minute, append([]string{"build"}, pkgs...)...)
-		if err != nil {
-			return nil, fmt.Errorf("go build (control): %v\n%s", err, trim(out2, 2000))
-		}
-		if code2 != 0 {
-			by2, _ := SplitBuildOutput(out2)
-			if len(by2) == 0 {
-				return nil, fmt.Errorf("go build (control) failed without attributing errors to a package:\n%s", trim(out2, 2000))
-			}
-			for _, i := range failing {
-				o := &outs[i]
-				if e, ok := by2[ScratchModule+"/ctl"+o.Pkg]; ok {
-					o.Invalid = "protoc-gen-go's message code does not compile on its own: " + trim(e, 400)
-					o.CompileError = ""
-				}
+			if e := errs2[ScratchModule+"/ctl"+o.Pkg]; e != "" {
+				o.Invalid = "protoc-gen-go's message code does not compile on its own: " + trim(e, 400)
+				o.CompileError = ""
 			}
 		}
 	}
